@@ -63,7 +63,7 @@ func (c *ChanReader) Read(out []byte) (int, error) {
 	}
 	n := copy(out, c.buffer)
 	c.buffer = c.buffer[n:]
-	if len(out) <= len(c.buffer) {
+	if n == len(out) {
 		return n, nil
 	} else if n > 0 {
 		// We have some data to return, so make the channel read optional
